@@ -1,4 +1,6 @@
 import MemcVerif.Proofs.Frames
+import MemcVerif.Proofs.Skip
+import MemcVerif.Proofs.TablesTie
 /-!
 # C13 — item size limit: oversized requests are refused and skipped cleanly
 -/
@@ -142,6 +144,63 @@ theorem C13_within_limit_never_rejected (limit : Nat) (st : PState) (buf : Bytes
 
 example : PState.sizeOK 1024 .idle := trivial
 
+
+/-! ## the socket-side discard loop (`skip_bytes`)
+
+`Model/Skip`: the loop as it is written — a scratch buffer of min(bytes, 64 KiB), re-sized after every read to what is still
+owed. The socket's deliveries are universally quantified: any number of reads, each returning between one byte and the
+capacity offered. -/
+
+theorem skip_run_inv (bytes : Nat) (ds : List Nat) :
+    ∀ s : SkipSt, s.Inv bytes → s.counter + ds.length ≥ 0 →
+      ∀ s', SkipSt.run bytes s ds = some s' → s'.Inv bytes ∧ (s'.done = false → s'.counter ≥ s.counter + ds.length) := by
+  induction ds with
+  | nil => intro s h _ s' hr; simp [SkipSt.run] at hr; subst hr; exact ⟨h, fun _ => by simp⟩
+  | cons n rest ih =>
+    intro s h _ s' hr
+    unfold SkipSt.run at hr
+    by_cases hd : s.done = true
+    · simp [hd] at hr; subst hr; exact ⟨h, fun hf => by simp [hd] at hf⟩
+    · have hd' : s.done = false := by simpa using hd
+      have ho : s.overread = false := h.1
+      simp only [hd', ho, Bool.or_self, Bool.false_eq_true, if_false] at hr
+      by_cases hbad : n = 0 ∨ n > s.cap
+      · simp [hbad] at hr
+      · simp only [hbad, if_false] at hr
+        have hn : 0 < n := by omega
+        have hc : n ≤ s.cap := by omega
+        have hinv := SkipSt.inv_step bytes s n h hd' hn hc
+        obtain ⟨a, b⟩ := ih (s.step bytes n) hinv (by omega) s' hr
+        refine ⟨a, fun hf => ?_⟩
+        have := b hf
+        have hcnt : (s.step bytes n).counter = s.counter + n := by
+          unfold SkipSt.step
+          simp only [hd', ho, Bool.or_self, Bool.false_eq_true, if_false]
+          split
+          · rfl
+          · split <;> rfl
+        simp only [List.length_cons]; omega
+
+/-- **however the rest of an oversized body arrives**, the discard loop never takes a byte that belongs to the next request
+    (its `panic!("Read too much …")` branch is unreachable), when it finishes it has discarded exactly `bytes`, and it makes
+    progress with every read: after `bytes` reads at the latest it has finished -/
+theorem C13_skip_loop_exact (bytes : Nat) (ds : List Nat) (s' : SkipSt)
+    (h : SkipSt.run bytes (SkipSt.init bytes) ds = some s') :
+    s'.overread = false ∧ s'.counter ≤ bytes ∧ (s'.done = true → s'.counter = bytes) ∧
+    (s'.done = false → ds.length ≤ s'.counter ∧ s'.counter < bytes ∧ 0 < s'.cap ∧ s'.cap ≤ bytes - s'.counter) := by
+  obtain ⟨⟨h1, h2, h3, h4⟩, h5⟩ := skip_run_inv bytes ds (SkipSt.init bytes) (SkipSt.inv_init bytes) (by omega) s' h
+  refine ⟨h1, h2, h3, fun hf => ?_⟩
+  have a := h5 hf
+  have b := h4 hf
+  simp [SkipSt.init] at a
+  exact ⟨a, by omega, b.2, b.1⟩
+
+/-- the scratch-buffer size of the model is the literal of `skip_bytes` as re-extracted from the source on this run -/
+theorem C13_skip_buffer_is_the_sources : Holds Gen.skipBuf (fun n => n = SKIP_BUF) := tie_skip_buf
+
+/-- non-vacuity: 150 000 bytes owed, delivered as 65536 + 1 + 65535 + 18928 -/
+example : (SkipSt.run 150000 (SkipSt.init 150000) [65536, 1, 65535, 18928]).map (·.done) = some true := by decide
+
 end Memc
 
 #print axioms Memc.C13_too_large_answer
@@ -149,3 +208,6 @@ end Memc
 #print axioms Memc.C13_any_segmentation
 #print axioms Memc.C13_sizeOK_step
 #print axioms Memc.C13_within_limit_never_rejected
+#print axioms Memc.skip_run_inv
+#print axioms Memc.C13_skip_loop_exact
+#print axioms Memc.C13_skip_buffer_is_the_sources
